@@ -306,13 +306,25 @@ def load_known():
     return res
 
 
+def harness_env(pid, **extra):
+    """Environment of every harness process: its scratch files (temp repositories, sorter chunks,
+    child processes' temp dirs) go to build/<pid>/tmp, which main() removes when the run ends."""
+    d = os.path.join(BUILD, pid, "tmp")
+    os.makedirs(d, exist_ok=True)
+    return dict(GOENV, TMPDIR=d, **extra)
+
+
+def clean_scratch(pid):
+    shutil.rmtree(os.path.join(BUILD, pid, "tmp"), ignore_errors=True)
+
+
 def harness_gen(pid, seed, tier, out, timeout):
     return sh([os.path.join(BUILD, "verifharness"), "gen", pid, str(seed), tier, out],
-              env=dict(GOENV, TMPDIR=os.environ.get("TMPDIR", "/tmp")), timeout=timeout)
+              env=harness_env(pid), timeout=timeout)
 
 
 def harness_replay(pid, casefile, out, timeout=600):
-    return sh([os.path.join(BUILD, "verifharness"), "replay", pid, casefile, out], env=GOENV, timeout=timeout)
+    return sh([os.path.join(BUILD, "verifharness"), "replay", pid, casefile, out], env=harness_env(pid), timeout=timeout)
 
 
 
@@ -356,7 +368,7 @@ def race_replay(pid, cstrs, bdir, name, timeout=1200, halt=False):
     with open(cin, "w") as f:
         for c in cstrs:
             f.write("C " + c + "\n")
-    env = dict(GOENV, GORACE="log_path=%s halt_on_error=%d exitcode=66 history_size=2" % (prefix, 1 if halt else 0))
+    env = harness_env(pid, GORACE="log_path=%s halt_on_error=%d exitcode=66 history_size=2" % (prefix, 1 if halt else 0))
     rc, out, _ = sh([RACE_BIN, "replay", pid, cin, cout], env=env, timeout=timeout)
     return rc, race_reports(prefix)
 
@@ -535,6 +547,14 @@ def shrink(pid, bdir, case, still_fails, budget_s=40):
 # --------------------------------------------------------------------------
 
 def main(argv):
+    try:
+        return main_run(argv)
+    finally:
+        if argv and argv[0] in PROPS:
+            clean_scratch(argv[0])
+
+
+def main_run(argv):
     ap = argparse.ArgumentParser()
     ap.add_argument("pid")
     ap.add_argument("--tier", default=os.environ.get("VERIF_TIER", "quick"))
